@@ -234,7 +234,7 @@ func universe(r *hx.Rng) (keys [][]byte, style string) {
 	return
 }
 
-var valLens = []int{1, 1, 1, 2, 5, 20, 31, 32, 33, 100}
+var valLens = []int{1, 1, 1, 2, 5, 20, 27, 28, 29, 30, 31, 32, 33, 100} // 27..30: leaf encodings of 31..33 bytes (embed/hash boundary)
 
 func genValue(r *hx.Rng) []byte {
 	switch r.Intn(12) {
@@ -522,6 +522,7 @@ func (rn *runner) run(h []op, universe [][]byte) (hops []string, jsn []string, s
 	s = newSut()
 	emit := func(term string) { hops = append(hops, term); jsn = append(jsn, term) }
 	step := -1
+	diskDumped := false
 	defer func() {
 		if p := recover(); p != nil {
 			kind := "start"
@@ -614,6 +615,22 @@ func (rn *runner) run(h []op, universe [][]byte) (hops []string, jsn []string, s
 					rn.violate("C02/reopen:db-commit", err.Error(), h, i)
 				}
 				s.tdb = trie.NewDatabase(s.mem) // nothing survives but the disk content
+				// layer B observation: the whole disk store (hash -> node RLP), once per history and only when small
+				if !diskDumped {
+					keys := s.mem.Keys()
+					sort.Slice(keys, func(a, b int) bool { return bytes.Compare(keys[a], keys[b]) < 0 })
+					total, items := 0, make([]string, 0, len(keys))
+					for _, k := range keys {
+						v, _ := s.mem.Get(k)
+						total += 2 * (len(k) + len(v))
+						items = append(items, fmt.Sprintf("(%s, %s)", hx.CoqHex(k), hx.CoqHex(v)))
+					}
+					if total <= 2400 {
+						diskDumped = true
+						rn.flags["disk-dump"] = true
+						emit(fmt.Sprintf("HDisk %s %s", hx.CoqHex(root[:]), hx.CoqList(items)))
+					}
+				}
 			}
 			t2, err := trie.NewTrie(root, s.tdb)
 			if err != nil {
@@ -677,7 +694,7 @@ func class(s *sut, flags map[string]bool) string {
 		live = "4+"
 	}
 	f := []string{}
-	for _, k := range []string{"del-present", "overwrite", "commit", "reload", "limit"} {
+	for _, k := range []string{"del-present", "overwrite", "commit", "reload", "limit", "disk-dump"} {
 		if flags[k] {
 			f = append(f, k)
 		}
@@ -704,10 +721,14 @@ func main() {
 	a := hx.ParseArgs()
 	rng := hx.NewRng(a.Seed)
 	res := hx.NewResult("cases = operation histories (update / delete / get / hash / commit / flush-to-disk / reopen from disk or from the node cache / " +
-		"cache limit / iterate) over key universes with 1-3-nibble alphabets, prefix chains, long shared prefixes, 32-byte keys; values of length 0,1,2,5,20,31,32,33,100 and RLP-looking bytes; " +
-		"plus every history up to a fixed length over a 4-key universe {12, 1234, 1235, 22} x values {1 byte, 33 bytes} x delete. " +
+		"cache limit / iterate) over key universes with 1-3-nibble alphabets, prefix chains, long shared prefixes, 32-byte keys; values of length 0,1,2,5,20,27-33,100 and RLP-looking bytes; " +
+		"plus every history up to a fixed length over a 4-key universe {12, 1234, 1235, 22} x values {1 byte, 29 bytes, 33 bytes} x delete. " +
 		"non-trivial = distinct history during which the trie held at least two keys at once (so a branch node existed)")
-	cs := hx.NewCases(a.Out, "From V.C02 Require Import Model Harness.", "list hop", "check", 40)
+	perShard := 40 // every case costs the model several Keccak-256 evaluations (~0.1 s)
+	if a.Tier == "thorough" {
+		perShard = 80 // keep the number of shards (coqc processes) below ~80
+	}
+	cs := hx.NewCases(a.Out, "From V.C02 Require Import Model Harness.", "list hop", "check", perShard)
 	rn := &runner{res: res, rng: rng.Fork(), seen: map[string]int{}}
 
 	doOne := func(h []op, uni [][]byte, toModel bool, sample bool) {
@@ -769,7 +790,7 @@ func main() {
 
 	// ---- exhaustive small scope
 	exKeys := [][]byte{{0x12}, {0x12, 0x34}, {0x12, 0x35}, {0x22}}
-	exVals := [][]byte{{0x61}, bytes.Repeat([]byte{0x62}, 33), nil}
+	exVals := [][]byte{{0x61}, bytes.Repeat([]byte{0x62}, 33), bytes.Repeat([]byte{0x63}, 29), nil} // 29: leaf RLP of exactly 32 bytes
 	var exOps []op
 	for _, k := range exKeys {
 		for _, v := range exVals {
@@ -792,7 +813,8 @@ func main() {
 			if len(pre) == goLen && len(pre) > modelLen { // longest ones also get a reload to cover commit/decode paths
 				h = append(h, op{Kind: []string{"reopen-disk", "reopen-mem", "commit"}[nEx%3]})
 			}
-			doOne(h, exKeys, len(pre) <= modelLen, false)
+			// through the model: everything up to length 2; of length 3 (thorough) every 4th
+			doOne(h, exKeys, len(pre) <= 2 || (len(pre) <= modelLen && nEx%4 == 0), false)
 			nEx++
 		}
 		if d == 0 {
@@ -804,7 +826,7 @@ func main() {
 	}
 	rec(nil, goLen)
 	res.Exhaustive = true
-	res.Note(fmt.Sprintf("exhaustive: all %d histories of length <= %d over %d update/delete operations on keys {12,1234,1235,22} (direct checks), those of length <= %d also through the model", nEx, goLen, len(exOps), modelLen))
+	res.Note(fmt.Sprintf("exhaustive: all %d histories of length <= %d over %d update/delete operations on keys {12,1234,1235,22} (direct checks), those of length <= 2 (thorough: and every 4th of length 3) also through the model", nEx, goLen, len(exOps)))
 
 	// ---- generated histories
 	for i := 0; i < a.N; i++ {
@@ -841,7 +863,7 @@ func main() {
 	bKeys := [][]byte{{0x12}, {0x12, 0x34}, {0x12, 0x35}}
 	var bOps []op
 	for _, k := range bKeys {
-		bOps = append(bOps, op{Kind: "upd", K: k, V: []byte{0x61}}, op{Kind: "upd", K: k, V: bytes.Repeat([]byte{0x62}, 33)}, op{Kind: "del", K: k})
+		bOps = append(bOps, op{Kind: "upd", K: k, V: []byte{0x61}}, op{Kind: "upd", K: k, V: bytes.Repeat([]byte{0x62}, 29)}, op{Kind: "del", K: k})
 	}
 	bOps = append(bOps, op{Kind: "hash"}, op{Kind: "commit"}, op{Kind: "flush"}, op{Kind: "reopen-disk"}, op{Kind: "reopen-mem"})
 	bLen := 4
@@ -852,9 +874,14 @@ func main() {
 	var recB func(pre []op, d int)
 	recB = func(pre []op, d int) {
 		if len(pre) > 1 {
-			doOne(append([]op{}, pre...), bKeys, false, false)
-			doOne(append([]op{{Kind: "limit", L: 1}}, pre...), bKeys, false, false)
-			nB += 2
+			// both cache limits up to length 4; at length 5 (thorough) alternately one of them
+			if len(pre) <= 4 || nB%2 == 0 {
+				doOne(append([]op{}, pre...), bKeys, false, false)
+			}
+			if len(pre) <= 4 || nB%2 == 1 {
+				doOne(append([]op{{Kind: "limit", L: 1}}, pre...), bKeys, false, false)
+			}
+			nB++
 		}
 		if d == 0 {
 			return
@@ -867,7 +894,7 @@ func main() {
 		}
 	}
 	recB(nil, bLen)
-	res.Note(fmt.Sprintf("direct search without model: %d more generated histories; exhaustive: all %d histories of length <= %d over %d operations (3 keys x {1-byte, 33-byte value, delete}, hash, commit, flush, reopen-disk, reopen-mem), each with cache limit 0 and 1", extra, nB, bLen, len(bOps)))
+	res.Note(fmt.Sprintf("direct search without model: %d more generated histories; exhaustive: all %d histories of length 2..%d over %d operations (3 keys x {1-byte, 29-byte value (leaf RLP of exactly 32 bytes), delete}, hash, commit, flush, reopen-disk, reopen-mem), each with cache limit 0 and 1 (length 5: alternately one of the two)", extra, nB, bLen, len(bOps)))
 
 	cs.Close()
 	res.ModelCases = cs.Total()
